@@ -213,14 +213,16 @@ def run(ctx):
     # 2. the code: executions validated against the contract
     sz = SIZES[ctx.tier]
     w = WEIGHT[ctx.prop]
-    ctx.run_and_validate(DRIVER, COMP, TRACE, directed(), 'directed', nontrivial=nontrivial,
-                         known_match=known_match)
+    executed = ctx.run_and_validate(DRIVER, COMP, TRACE, directed(), 'directed', nontrivial=nontrivial,
+                                    known_match=known_match)
     for fam, gen in (('contention', fam_contention), ('lifecycle', fam_lifecycle),
                      ('faults', fam_faults), ('mixed', fam_mixed), ('evicting', fam_evicting)):
         n = int(sz[fam] * w[fam])
         for off in range(0, n, 4000):
-            ctx.run_and_validate(DRIVER, COMP, TRACE, gen(rng, min(4000, n - off)), fam,
-                                 nontrivial=nontrivial, known_match=known_match)
+            out = ctx.run_and_validate(DRIVER, COMP, TRACE, gen(rng, min(4000, n - off)), fam,
+                                       nontrivial=nontrivial, known_match=known_match)
+            if len(executed) < 4000:
+                executed += out[:600]
     # 2b. systematic schedule exploration (preemption-bounded) of the smallest scenarios
     small = [
         ('dfs_2loops_zero', {'loops': [{'name': 'L1', 'callers': [{'c': 1, 'k': 'a'}], 'life': 'full'},
@@ -245,7 +247,7 @@ def run(ctx):
         ctx.explore_dfs(DRIVER, COMP, TRACE, sc, fam, bound=bound, budget=2500 if ctx.tier == 'quick' else 60000,
                         seed=ctx.seed, nontrivial=nontrivial, known_match=known_match)
     # 3. spec -> code: behaviours of the model replayed into the implementation
-    cachemodel.replay_behaviours(ctx)
+    cachemodel.conformance(ctx, executed, limit=40 if ctx.tier == 'quick' else 600)
     return ctx.finish(
         rule='scenario = loops x callers x durations x life cycles x faults (generators in '
              'harness/components/cachecomp.py, seeded by VERIF_SEED) executed under random/PCT/default '
